@@ -28,7 +28,7 @@ if [ "$what" = modelonly ]; then
   # the model files only (no proofs): for differential runs while the model is being changed
   cd "$ROOT/coq"
   if [ ! -f Makefile ] || [ _CoqProject -nt Makefile ]; then coq_makefile -f _CoqProject -o Makefile >/dev/null; fi
-  timeout 900 make -j16 Dispatch.vo RespParse.vo Dict.vo PersistDir.vo Wait.vo >"$ROOT/build/coq-build.log" 2>&1 || { tail -40 "$ROOT/build/coq-build.log"; echo "COQ BUILD FAILED"; exit 1; }
+  timeout 900 make -j16 Dispatch.vo RespParse.vo Dict.vo PersistDir.vo Wait.vo Cxn.vo >"$ROOT/build/coq-build.log" 2>&1 || { tail -40 "$ROOT/build/coq-build.log"; echo "COQ BUILD FAILED"; exit 1; }
 fi
 
 if [ "$what" = all ] || [ "$what" = model ] || [ "$what" = coq ] || [ "$what" = modelonly ]; then
@@ -36,7 +36,7 @@ if [ "$what" = all ] || [ "$what" = model ] || [ "$what" = coq ] || [ "$what" = 
   # re-extract only when a model file is newer than the extracted code
   need=0
   [ -f model.ml ] || need=1
-  for f in Base Resp State Exec Exec2 Bits Lcs Sort Fnum Dispatch Dict RespParse Persist PersistDir Wait; do
+  for f in Base Resp State Exec Exec2 Bits Lcs Sort Fnum Dispatch Dict RespParse Persist PersistDir Wait Cxn; do
     [ -f "$ROOT/coq/$f.v" ] && [ "$ROOT/coq/$f.v" -nt model.ml ] && need=1
   done
   [ "$ROOT/coq/Extract.v" -nt model.ml ] && need=1
